@@ -72,7 +72,7 @@ def work(d):
         "needs": meta.get("needs"),
         "files_changed": meta.get("files_changed"),
         "origin": "independent sub-agent given only the property text and a scratch worktree" + (
-            " (round 2: additionally told which mechanisms round 1 had already explored)" if ROUND else ""),
+            " (later rounds: additionally told which mechanisms the earlier rounds had already explored)" if ROUND else ""),
         "verified": {"how": "tools/seed.py verify: patch applied to a scratch copy of /repo; demo.py run without/with the patch; full test-suite run with the patch",
                      "demo_clean_rc": ver.get("demo_clean_rc"), "demo_patched_rc": ver.get("demo_patched_rc"), "suite": ver.get("suite"), "valid": ver.get("valid")},
         "caught_by": {p: v["rules"] for p, v in res.items() if v["exit"] == 1},
